@@ -1,12 +1,10 @@
--------------------------- MODULE DecoderBuf_Trace --------------------------
+---------------------------- MODULE Decoder_Trace ----------------------------
 (***************************************************************************)
-(* Trace validation of recorded lz.DecoderBuffer executions against the    *)
-(* DecoderBuf envelope.  Monitor style: the file VERIF_TRACE holds many    *)
-(* traces (each starts with a "begin" event); a rejected trace is recorded *)
-(* (trace id, line, names of the broken rules) and its remaining events    *)
-(* are skipped, so one TLC run judges hundreds of traces.                  *)
+(* Trace validation of recorded lz.Decoder executions (API calls plus the  *)
+(* writer calls they made) against the DecoderEnv envelope.  Monitor       *)
+(* style, see DecoderBuf_Trace.                                            *)
 (***************************************************************************)
-EXTENDS DecoderBuf, Json, IOUtils
+EXTENDS DecoderEnv, Json, IOUtils
 
 Trace == ndJsonDeserialize(IOEnv.VERIF_TRACE)
 
@@ -18,7 +16,7 @@ vars == <<l, st, bad, tid>>
 
 TraceInit ==
   /\ l = 1
-  /\ st = DInit(0)
+  /\ st = EInit(0)
   /\ bad = 0
   /\ tid = ""
   /\ TLCSet(1, <<>>)
@@ -29,17 +27,17 @@ TraceNext ==
   /\ LET e == Trace[l] IN
      IF e.op = "begin"
      THEN /\ tid' = e.tid
-          /\ st' = DInit(e.W)
+          /\ st' = EInit(e.W)
           /\ bad' = 0
      ELSE IF bad # 0 \/ e.op = "end"
      THEN UNCHANGED <<tid, st, bad>>
-     ELSE LET why == Why(st, e) IN
+     ELSE LET why == EWhy(st, e) IN
           IF why = {}
-          THEN /\ st' = Eff(st, e)
+          THEN /\ st' = EEff(st, e)
                /\ UNCHANGED <<tid, bad>>
           ELSE IF why \subseteq Soft
           THEN \* a refusal leaves the state intact: record it, keep validating
-               /\ st' = Eff(st, e)
+               /\ st' = EEff(st, e)
                /\ UNCHANGED <<tid, bad>>
                /\ TLCSet(1, Append(TLCGet(1), [tid |-> tid, line |-> l, why |-> why]))
           ELSE /\ bad' = l
@@ -47,9 +45,7 @@ TraceNext ==
                /\ TLCSet(1, Append(TLCGet(1), [tid |-> tid, line |-> l, why |-> why]))
 
 TraceSpec == TraceInit /\ [][TraceNext]_vars
-
-(* Sanity of the abstract state in every reached state (C04).              *)
-TraceInv == bad # 0 \/ StateOk(st)
+TraceInv == bad # 0 \/ EStateOk(st)
 
 Post ==
   /\ PrintT(<<"VERIF_BAD", ToJson(TLCGet(1))>>)
